@@ -62,14 +62,17 @@ class Penalty(Unit):
             pol = k % 6
             m0 = (pol in (0, 1)) and r.random() < 0.15
             rho0 = 2.0 ** r.randint(-4, 2)
+            big = pol == 1 and r.random() < 0.2          # penalties beyond any fixed cap (1e10, ...)
             otol = r.choice([0.0, 2.0 ** -6, 0.5])
             itol = r.choice([0.0, 2.0 ** -6, 0.5])
             L = r.randint(1, 8)
             ds = []
             for _ in range(L):
-                d = {"y": p2(r, -4, 8) if r.random() < 0.85 else 0.0, "c": p2(r, -4, 3) if r.random() < 0.9 else 0.0,
+                d = {"y": (p2(r, 36, 50) if big else p2(r, -4, 8)) if r.random() < 0.85 else 0.0, "c": p2(r, -4, 3) if r.random() < 0.9 else 0.0,
                      "j": p2(r, -2, 2), "g": (p2(r, -2, 2) if r.random() < 0.85 else 0.0), "obj": float(r.randint(-8, 8)) / 2}
                 ds.append(d)
+            if big:
+                rho0 = 2.0 ** r.randint(34, 40)
             cases.append({"pol": pol, "m0": m0, "rho0": rho0, "otol": otol, "itol": itol, "ds": ds})
         return cases
 
